@@ -112,10 +112,23 @@ def deep_table(n):
     return {'d': deep(n - 1, 'alt')}
 
 
+# field names whose length in characters and in UTF-8 bytes fall on
+# different sides of the limits (128 characters kept by the encoder, 255
+# bytes in a short string): <= 128 characters but 130..255 bytes
+MB_KEYS = ['é' * 65, 'é' * 127, 'é' * 127 + 'a', '€' * 43, '€' * 85,
+           '\U0001F600' * 33, '\U0001F600' * 63, 'a' * 128, 'k€' * 50]
+
+
+def key_table():
+    inner = {k: i for i, k in enumerate(MB_KEYS)}
+    return dict(inner, nested={k: [i] for i, k in enumerate(MB_KEYS)},
+                arr=[dict(inner)])
+
+
 TABLES = [None, {}, {'a': 1}, {'b': True, 'a': 'x'}, rich_table(),
-          deep_table(8)]
+          deep_table(8), key_table()]
 HEADER_TABLES = [{'a': 1}, {'b': True, 'a': 'x'}, rich_table(), deep_table(8),
-                 {}]
+                 {}, key_table()]
 
 
 def trees(max_nodes):
